@@ -9,8 +9,11 @@ use vcommon::refscale::PType;
 
 pub type Snapshot = Vec<(u32, PType)>;
 
+/// the registry's entries keyed by id (sorted by id: no particular iteration order of `Registry::types()` is demanded)
 pub fn snapshot(reg: &Registry) -> Snapshot {
-    reg.types().map(|(k, v)| (k.id, v.clone())).collect()
+    let mut s: Snapshot = reg.types().map(|(k, v)| (k.id, v.clone())).collect();
+    s.sort_by_key(|e| e.0);
+    s
 }
 
 pub fn portable_of(s: &Snapshot) -> PortableRegistry {
@@ -215,7 +218,7 @@ pub fn image_check(reg: &PortableRegistry, start: &[(MetaType, u32)]) -> Result<
 pub fn c01_state(snap: &Snapshot, portable: &PortableRegistry, returned: &[u32]) -> Result<(), String> {
     for (i, (k, _)) in snap.iter().enumerate() {
         if *k != i as u32 {
-            return Err(format!("Registry::types() yields key {k} at position {i}"));
+            return Err(format!("the ids held by the Registry are not 0..n: id {k} is the {i}-th smallest"));
         }
     }
     refs::well_formed(portable)?;
@@ -247,12 +250,13 @@ pub fn prefix_stable(before: &Snapshot, after: &Snapshot) -> Result<(), String> 
     if after.len() < before.len() {
         return Err(format!("registry shrank from {} to {} entries", before.len(), after.len()));
     }
-    for (i, (b, a)) in before.iter().zip(after).enumerate() {
-        if b.0 != a.0 {
-            return Err(format!("entry {i} renumbered from {} to {}", b.0, a.0));
-        }
-        if b.1 != a.1 {
-            return Err(format!("entry {} (id {}) was altered by a later registration", i, b.0));
+    // every (id, definition) of the earlier state is present unchanged in the later state
+    let later: std::collections::BTreeMap<u32, &PType> = after.iter().map(|(i, t)| (*i, t)).collect();
+    for (id, ty) in before {
+        match later.get(id) {
+            None => return Err(format!("id {id} is no longer held by the registry")),
+            Some(t) if **t != *ty => return Err(format!("entry with id {id} was altered by a later registration")),
+            _ => {}
         }
     }
     Ok(())
